@@ -20,23 +20,25 @@ MODELLED = ("Modelled (Engine/Monitors.v, of the code with fixes/C41-a.diff): Ru
             "clear_monitors, the clearing in close_run; RunEngine: the monitor/unmonitor/open_run/close_run message handlers' key "
             "checks, suspend_monitors of every bundler in the pause block and in _start_suspender, restore_monitors at the wake-up "
             "and in _resume ('_resume_from_suspender'), clear_monitors + dropping the bundlers in the finally block. The device is a "
-            "ledger (subscribe adds a registration, clear_sub removes every registration of the callback - ophyd's semantics - an "
-            "update calls each registration once, each call emits one Event of the callback's run). Environment (universally "
+            "ledger (subscribe(cb, **kwargs) adds a registration for the channel the kwargs name - the 'monitor' message's kwargs, "
+            "e.g. event_type - clear_sub removes every registration of the callback - ophyd's semantics - an update on a channel "
+            "calls each registration made for that channel once, each call emits one Event of the callback's run). Environment (universally "
             "quantified in the theorems, produced by the real engine in the tie and read from its own message/state hooks): when the "
             "pause block, the wake-up, _start_suspender and _resume_from_suspender happen. Not modelled: the Event's seq_num/"
-            "timestamps/descriptor (C05/C16), ophyd's immediate callback on subscribe(run=True), kwargs passed to subscribe, devices "
+            "timestamps/descriptor (C05/C16), ophyd's immediate callback on subscribe(run=True), subscribe kwargs other than the channel, devices "
             "whose subscribe/clear_sub raise, requests from other OS threads.")
-RULE = ("exhaustive: a monitored signal with an update before, inside and after each of 16 control scenarios (pause ended by "
+RULE = ("exhaustive (x 2: monitor without kwargs / with event_type='rb', updates on the requested and on another channel): a monitored signal with an update before, inside and after each of 16 control scenarios (pause ended by "
         "resume/abort/stop/halt; suspension with updates in pre_plan, awaited future and post_plan; overlapping second suspension; "
         "pause inside a suspension; pause then suspension; two suspensions in a row; a stray '_resume_from_suspender' message) x 6 endings (nothing, unmonitor, close_run, "
         "second run monitoring the same signal, monitor placed in the pre_plan, run opened in the pre_plan) ; random: 1-2 calls x "
-        "3-10 steps over 2 run keys (+ default key) and 2 signals with nested pauses/suspensions, illegal monitor/unmonitor/open/close, "
+        "3-10 steps over 2 run keys (+ default key), 2 signals and 3 channels (monitor kwargs and update channels drawn independently) with nested pauses/suspensions, illegal monitor/unmonitor/open/close, "
         "plans that raise. non-trivial = some update produced an Event and some update made while paused/suspended produced none")
 
 logging.getLogger("bluesky").setLevel(logging.CRITICAL + 1)
 
 KEYS = {"A": 1, "B": 2, None: 0}
 OBJS = {"o1": 1, "o2": 2}
+CH = {"default": 0, "rb": 1, "sp": 2}
 OUT = {"Ok": "OOk", "Illegal": "OIllegal", "RejectedDup": "ORejectedDup"}
 
 
@@ -51,8 +53,8 @@ class _V:
         return self.n
 
 
-def _controls(v):
-    u = lambda o="o1": ["update", o, v()]  # noqa: E731
+def _controls(v, chan="default"):
+    u = lambda o="o1": ["update", o, v(), chan]  # noqa: E731
     return [
         lambda: [["pause", [u()], "resume"]],
         lambda: [["pause", [u(), u()], "abort"]],
@@ -75,33 +77,37 @@ def _controls(v):
 
 def _exhaustive():
     out = []
-    for ci in range(16):
-        for end in range(6):
-            v = _V()
-            u = lambda o="o1": ["update", o, v()]  # noqa: E731
-            steps = [["open", "A"]]
-            ctl = _controls(v)[ci]()
-            if end == 3:
-                steps += [["open", "B"], ["monitor", "B", "o1"]]
-            if end == 4:      # the monitor message is processed inside the suspension/pre_plan when there is one
-                sus = [s for s in ctl if s[0] == "suspend"]
-                if sus:
-                    sus[0][1] = [["monitor", "A", "o1"]] + sus[0][1]
+    for chan in ("default", "rb"):
+        other = "sp" if chan == "rb" else "rb"
+        for ci in range(16):
+            for end in range(6):
+                v = _V()
+                u = lambda o="o1": ["update", o, v(), chan]  # noqa: E731
+                uo = lambda o="o1": ["update", o, v(), other]  # noqa: E731
+                mon = lambda k: ["monitor", k, "o1", chan]  # noqa: E731
+                steps = [["open", "A"]]
+                ctl = _controls(v, chan)[ci]()
+                if end == 3:
+                    steps += [["open", "B"], ["monitor", "B", "o1", other]]
+                if end == 4:      # the monitor message is processed inside the suspension/pre_plan when there is one
+                    sus = [s for s in ctl if s[0] == "suspend"]
+                    if sus:
+                        sus[0][1] = [mon("A")] + sus[0][1]
+                    else:
+                        steps += [mon("A")]
+                elif end == 5:    # class g: a run opened while suspended
+                    sus = [s for s in ctl if s[0] == "suspend"]
+                    if sus:
+                        sus[0][1] = [["open", "B"], mon("B")] + sus[0][1]
+                    steps += [mon("A")]
                 else:
-                    steps += [["monitor", "A", "o1"]]
-            elif end == 5:    # class g: a run opened while suspended
-                sus = [s for s in ctl if s[0] == "suspend"]
-                if sus:
-                    sus[0][1] = [["open", "B"], ["monitor", "B", "o1"]] + sus[0][1]
-                steps += [["monitor", "A", "o1"]]
-            else:
-                steps += [["monitor", "A", "o1"]]
-            steps += [u()] + ctl + [u()]
-            if end == 1:
-                steps += [["unmonitor", "A", "o1"], u()]
-            elif end == 2:
-                steps += [["close", "A"], u()]
-            out.append({"calls": [{"steps": steps}, {"steps": [u(), ["open", "A"], ["monitor", "A", "o1"], u()]}]})
+                    steps += [mon("A")]
+                steps += [u(), uo()] + ctl + [u(), uo()]
+                if end == 1:
+                    steps += [["unmonitor", "A", "o1"], u()]
+                elif end == 2:
+                    steps += [["close", "A"], u()]
+                out.append({"calls": [{"steps": steps}, {"steps": [u(), ["open", "A"], mon("A"), u(), uo()]}]})
     return out
 
 
@@ -109,10 +115,11 @@ def _rand_simple(rng, v):
     x = rng.random()
     key = rng.choice(["A", "A", "B", None])
     obj = rng.choice(["o1", "o1", "o2"])
+    chan = rng.choice(["default", "default", "rb", "sp"])
     if x < 0.36:
-        return ["update", obj, v()]
+        return ["update", obj, v(), chan]
     if x < 0.60:
-        return ["monitor", key, obj]
+        return ["monitor", key, obj, chan]
     if x < 0.70:
         return ["unmonitor", key, obj]
     if x < 0.86:
@@ -123,7 +130,8 @@ def _rand_simple(rng, v):
 
 
 def _rand_updates(rng, v, lo=0, hi=2):
-    return [["update", rng.choice(["o1", "o1", "o2"]), v()] for _ in range(rng.randint(lo, hi))]
+    return [["update", rng.choice(["o1", "o1", "o2"]), v(), rng.choice(["default", "default", "rb", "sp"])]
+            for _ in range(rng.randint(lo, hi))]
 
 
 def _rand_pause(rng, v):
@@ -134,7 +142,7 @@ def _rand_call(rng, v):
     steps = []
     if rng.random() < 0.8:
         k = rng.choice(["A", "A", "B", None])
-        steps += [["open", k], ["monitor", k, rng.choice(["o1", "o1", "o2"])]]
+        steps += [["open", k], ["monitor", k, rng.choice(["o1", "o1", "o2"]), rng.choice(["default", "rb", "sp"])]]
     for _ in range(rng.randint(2, 9)):
         x = rng.random()
         if x < 0.74:
@@ -220,10 +228,12 @@ def _cop(i):
     k = i[0]
     if k in ("OpenRun", "CloseRun"):
         return "%s %d%%N" % (k, KEYS[i[1]])
-    if k in ("Monitor", "Unmonitor"):
-        return "%s %d%%N %d%%N" % (k, KEYS[i[1]], OBJS[i[2]])
+    if k == "Monitor":
+        return "Monitor %d%%N %d%%N %d%%N" % (KEYS[i[1]], OBJS[i[2]], CH[i[3]])
+    if k == "Unmonitor":
+        return "Unmonitor %d%%N %d%%N" % (KEYS[i[1]], OBJS[i[2]])
     if k == "Update":
-        return "Update %d%%N (%d)%%Z" % (OBJS[i[1]], i[2])
+        return "Update %d%%N %d%%N (%d)%%Z" % (OBJS[i[1]], CH[i[2]], i[3])
     return k
 
 
@@ -235,7 +245,7 @@ def _cevs(obs):
     out = []
     for e in obs["log"]:
         if e[0] == "sub":
-            out.append("ESub %d%%N %d" % (OBJS[e[1]], _run_no(e[2])))
+            out.append("ESub %d%%N %d %d%%N" % (OBJS[e[1]], _run_no(e[2]), CH.get(e[3], 99)))
         elif e[0] == "clr":
             out.append("EClr %d%%N %d" % (OBJS[e[1]], _run_no(e[2])))
         elif e[0] == "events":
@@ -285,18 +295,19 @@ def _judge(obs):
     hard, soft = [], []
     if obs["errors"]:
         return ["driver: " + obs["errors"][0]], []
-    runs = {}        # key -> [run number, [objs]]
+    runs = {}        # key -> [run number, {obj: requested channel}]
     nrun, depth = 0, 0
-    live = {}        # (obj, run) -> registrations according to the ledger
+    live = {}        # (obj, run, channel) -> registrations according to the ledger
     pending_update = None
 
     def check_ledger(where):
-        mon = {(o, r) for r, os in runs.values() for o in os}
-        for (o, r), n in sorted(live.items()):
+        mon = {(o, r, c) for r, os in runs.values() for o, c in os.items()}
+        for (o, r, c), n in sorted(live.items()):
             if n > 1:
-                hard.append("%s: the callback of run %d is registered %d times on %s" % (where, r, n, o))
-            if n > 0 and (o, r) not in mon:
-                hard.append("%s: run %d does not monitor %s (unmonitored, closed or cleaned up) yet %d registration(s) remain on the device" % (where, r, o, n))
+                hard.append("%s: the callback of run %d is registered %d times on %s (channel %s)" % (where, r, n, o, c))
+            if n > 0 and (o, r, c) not in mon:
+                hard.append("%s: run %d does not monitor %s on channel %s (unmonitored, closed, cleaned up, or another channel was "
+                            "requested) yet %d registration(s) for that channel are on the device" % (where, r, o, c, n))
 
     for e in obs["log"]:
         if e[0] == "in":
@@ -305,13 +316,13 @@ def _judge(obs):
             where = "after %s" % (" ".join(str(x) for x in i),)
             if k == "OpenRun":
                 if i[1] not in runs:
-                    runs[i[1]] = [nrun, []]
+                    runs[i[1]] = [nrun, {}]
                     nrun += 1
             elif k == "CloseRun":
                 pass
             elif k == "Monitor":
                 if i[1] in runs and i[2] not in runs[i[1]][1]:
-                    runs[i[1]][1].append(i[2])
+                    runs[i[1]][1][i[2]] = i[3]
             elif k == "Unmonitor":
                 pass
             elif k in ("PauseBlock", "SuspendStart"):
@@ -321,20 +332,22 @@ def _judge(obs):
             elif k == "Finalize":
                 pass
             elif k == "Update":
-                exp = sorted([r, i[1], i[2]] for r, os in runs.values() if i[1] in os) if depth == 0 else []
+                exp = sorted([r, i[1], i[3]] for r, os in runs.values() if os.get(i[1]) == i[2]) if depth == 0 else []
                 pending_update = (i, exp, depth)
             last_in = i
         elif e[0] == "sub":
-            live[(e[1], e[2])] = live.get((e[1], e[2]), 0) + 1
+            live[(e[1], e[2], e[3])] = live.get((e[1], e[2], e[3]), 0) + 1
         elif e[0] == "clr":
-            live[(e[1], e[2])] = 0
+            for key3 in list(live):
+                if key3[0] == e[1] and key3[1] == e[2]:
+                    live[key3] = 0
         elif e[0] == "events":
             i, exp, d = pending_update
             got = sorted(list(x) for x in e[1])
             if got != exp:
-                soft.append("update %s=%r while %s: Event documents %r, the property asks for %r" % (
-                    i[1], i[2], "running" if d == 0 else "paused/suspended (depth %d)" % d, got, exp))
-            check_ledger("at update %s=%r" % (i[1], i[2]))
+                soft.append("update %s=%r on channel %s while %s: Event documents %r, the property asks for %r" % (
+                    i[1], i[3], i[2], "running" if d == 0 else "paused/suspended (depth %d)" % d, got, exp))
+            check_ledger("at update %s=%r" % (i[1], i[3]))
         elif e[0] == "stray_event":
             hard.append("an Event document appeared outside any device update: %r" % (e[1],))
         elif e[0] == "out":
@@ -342,7 +355,7 @@ def _judge(obs):
             if i[0] == "CloseRun" and e[1] == "Ok":
                 runs.pop(i[1], None)
             elif i[0] == "Unmonitor" and e[1] == "Ok" and i[1] in runs and i[2] in runs[i[1]][1]:
-                runs[i[1]][1].remove(i[2])
+                del runs[i[1]][1][i[2]]
             if i[0] in ("CloseRun", "Unmonitor"):
                 check_ledger("after %s" % " ".join(str(x) for x in i))
         if e[0] == "in" and e[1] == "Finalize":
